@@ -441,6 +441,108 @@ def in_range(v, r):
     return (a is None or a <= v) and (b is None or v <= b)
 
 
+# ---------------------------------------------------------------- translator: Environments.<shortcut> -> filter class(arguments)
+import ast  # noqa: E402
+SHORTCUTS = ["shuffle", "sort", "riffle", "params", "take", "slice", "reservoir", "where", "batch", "chunk", "unbatch", "cache"]
+CLASSES = ["Shuffle", "Sort", "Riffle", "Params", "Take", "Slice", "Reservoir", "Where", "Batch", "Unbatch", "Chunk", "Cache", "Identity"]
+
+def sig_of(fn):
+    a = fn.args
+    out = []
+    pos = a.posonlyargs + a.args
+    off = len(pos) - len(a.defaults)
+    for i, p in enumerate(pos):
+        if p.arg == "self":
+            continue
+        out.append((p.arg, "" if i < off else ast.unparse(a.defaults[i - off])))
+    if a.vararg:
+        out.append(("*" + a.vararg.arg, ""))
+    elif a.kwonlyargs:
+        out.append(("*", ""))
+    for p, d in zip(a.kwonlyargs, a.kw_defaults):
+        out.append((p.arg, "" if d is None else ast.unparse(d)))
+    if a.kwarg:
+        out.append(("**" + a.kwarg.arg, ""))
+    return out
+
+def extract_shortcuts(repo):
+    core = ast.parse(open(os.path.join(repo, "coba/environments/core.py"), encoding="utf-8").read())
+    envs = next(n for n in ast.walk(core) if isinstance(n, ast.ClassDef) and n.name == "Environments")
+    rows = []
+    for name in SHORTCUTS:
+        fns = [f for f in envs.body if isinstance(f, ast.FunctionDef) and f.name == name]
+        fn = next(f for f in fns if not any(ast.unparse(d).endswith("overload") for d in f.decorator_list))
+        params = [p.arg for p in fn.args.posonlyargs + fn.args.args if p.arg != "self"] + [p.arg for p in fn.args.kwonlyargs]
+        if fn.args.vararg:
+            params.append(fn.args.vararg.arg)
+        # comprehension variables ranging over a parameter
+        each = {}
+        for n in ast.walk(fn):
+            if isinstance(n, ast.comprehension) and isinstance(n.target, ast.Name) and isinstance(n.iter, ast.Name):
+                each[n.target.id] = n.iter.id
+        def arg(e):
+            star = ""
+            if isinstance(e, ast.Starred):
+                star, e = "*", e.value
+            if isinstance(e, ast.Name) and e.id in params:
+                return star + "$" + e.id
+            if isinstance(e, ast.Name) and e.id in each:
+                return star + "each($%s)" % each[e.id]
+            return star + ast.unparse(e)
+        calls = []
+        for n in ast.walk(fn):
+            if isinstance(n, ast.Call) and isinstance(n.func, ast.Name) and n.func.id in CLASSES:
+                calls.append((n.lineno, n.col_offset, n.func.id, [("", arg(a)) for a in n.args] + [(k.arg or "**", arg(k.value)) for k in n.keywords]))
+        calls.sort()
+        rows.append((name, sig_of(fn), [(c[2], c[3]) for c in calls]))
+    return rows
+
+def extract_ctors(repo):
+    ef = ast.parse(open(os.path.join(repo, "coba/environments/filters.py"), encoding="utf-8").read())
+    pf = ast.parse(open(os.path.join(repo, "coba/pipes/filters.py"), encoding="utf-8").read())
+    def cls_of(tree, name):
+        return next((n for n in tree.body if isinstance(n, ast.ClassDef) and n.name == name), None)
+    rows = []
+    for name in CLASSES:
+        c = cls_of(ef, name)
+        where = "environments"
+        init = next((f for f in c.body if isinstance(f, ast.FunctionDef) and f.name == "__init__"), None) if c else None
+        if init is None and c is not None:
+            for b in c.bases:
+                if isinstance(b, ast.Attribute) and isinstance(b.value, ast.Name) and b.value.id == "pipes":
+                    pc = cls_of(pf, b.attr)
+                    init = next((f for f in pc.body if isinstance(f, ast.FunctionDef) and f.name == "__init__"), None) if pc else None
+                    where = "pipes." + b.attr
+                    break
+        rows.append((name, where if init is not None else "none", sig_of(init) if init is not None else []))
+    return rows
+
+
+
+def _lean_str(x):
+    if not all(32 <= ord(ch) < 127 and ch not in '"\\' for ch in x):
+        raise ValueError("unexpected character in %r" % (x,))
+    return '"%s"' % x
+
+
+def _lean_pairs(ps):
+    return "[%s]" % ", ".join("(%s, %s)" % (_lean_str(a), _lean_str(b)) for a, b in ps)
+
+
+def shortcuts_lean(repo):
+    rows, ctors = extract_shortcuts(repo), extract_ctors(repo)
+    body = ("-- GENERATED by harness/props/c09.py (pre_build) from coba/environments/core.py, coba/environments/filters.py and\n"
+            "-- coba/pipes/filters.py on every run; do not edit.\n"
+            "import CobaVerif.Model.C09\nnamespace Coba.Generated.C09\nopen Coba.C09\n"
+            "def extracted : Bool := true\n"
+            "def shortcuts : List ShortcutRow := [\n%s]\n"
+            "def ctors : List CtorRow := [\n%s]\n"
+            "end Coba.Generated.C09\n"
+            % (",\n".join("  { method := %s, sig := %s, calls := [%s] }" % (_lean_str(m), _lean_pairs(sg), ", ".join("(%s, %s)" % (_lean_str(c), _lean_pairs(a)) for c, a in calls)) for m, sg, calls in rows),
+               ",\n".join("  { cls := %s, src := %s, sig := %s }" % (_lean_str(c), _lean_str(w), _lean_pairs(sg)) for c, w, sg in ctors)))
+    return body, rows, ctors
+
+
 # ---------------------------------------------------------------- the property
 class C09(Property):
     id = "C09"
@@ -492,6 +594,29 @@ class C09(Property):
     }
 
     # ------------------------------------------------------------ generators
+    def pre_build(self):
+        """translator step: the shortcut -> filter-class(argument) table of `Environments` and the constructor signatures of the
+        filter classes, read off the CURRENT source with `ast`, written to lean/CobaVerif/Generated/C09Shortcuts.lean;
+        `shortcuts_wired_as_modelled` (Props/C09.lean) proves it equal to the table the model assumes"""
+        from core import lean
+        repo = os.environ.get("COBA_REPO", "/repo")
+        try:
+            body, rows, ctors = shortcuts_lean(repo)
+            notes = ["shortcut table extracted: %d Environments methods, %d filter constructors" % (len(rows), len(ctors))]
+        except Exception as e:  # noqa: BLE001
+            body = ("-- GENERATED: the shortcut table could not be extracted (%s)\n"
+                    "import CobaVerif.Model.C09\nnamespace Coba.Generated.C09\nopen Coba.C09\n"
+                    "def extracted : Bool := false\ndef shortcuts : List ShortcutRow := []\ndef ctors : List CtorRow := []\n"
+                    "end Coba.Generated.C09\n" % str(e).replace("\n", " ")[:150])
+            notes = ["shortcut table could NOT be extracted (%s): shortcuts_wired_as_modelled fails" % e]
+        path = os.path.join(lean.LEAN_DIR, "CobaVerif", "Generated", "C09Shortcuts.lean")
+        old = open(path, encoding="utf-8").read() if os.path.exists(path) else None
+        if old != body:
+            os.makedirs(os.path.dirname(path), exist_ok=True)
+            with open(path, "w", encoding="utf-8") as f:
+                f.write(body)
+        return notes
+
     def gen_value(self, rng, kind):
         if kind == "int":
             return rng.randint(-3, 3)
@@ -595,7 +720,201 @@ class C09(Property):
             return self.generate_product(rng, tier, boundary)
         if r < 21:
             return self.generate_unbatchg(rng)
+        if r < 28:
+            return self.generate_cachepipe(rng, tier, boundary)
         return self.generate_single(rng, tier, boundary)
+
+    # ------------------------------------------------------------ selecting filters around a shared .cache() / .chunk()
+    def gen_branch(self, rng, n, items):
+        """one downstream shortcut on a cached environment of n interactions (None = the cached environment itself)"""
+        b = rng.wchoice([(30, "take"), (22, "slice"), (20, "where"), (8, "params"), (5, "identity"), (15, "none")])
+        near = [0, 1, 2, 3, 24, 25, 26, 49, 50, 51, max(0, n - 1), n, n + 1, rng.randint(0, n + 2)]
+        if b == "take":
+            op = {"name": "take", "count": rng.choice(near + [None])}
+            if rng.chance(0.8):
+                op["strict"] = rng.chance(0.4)
+            return op
+        if b == "slice":
+            return {"name": "slice", "start": rng.choice([None, 0, 1, 2, 25, 26, rng.randint(0, n + 1)]), "stop": rng.choice([None] + near), "step": rng.choice([None, 1, 2, 3, 25])}
+        if b == "where":
+            op = {"name": "where"}
+            r = rng.below(100)
+            if r < 70:
+                op["n_interactions"] = self.gen_range(rng, rng.choice([n, n, 25, 26, 1]))
+            if r >= 50:
+                acts = [len(it["actions"]) for it in items if it.get("actions") is not None]
+                if len(acts) == len(items):
+                    op["n_actions"] = self.gen_range(rng, rng.choice(acts) if acts else 2)
+            if len(op) == 1:
+                op["n_interactions"] = self.gen_range(rng, n)
+            return op
+        if b == "none":
+            return None
+        return {"name": b}
+
+    def generate_cachepipe(self, rng, tier, boundary=False):
+        """ONE environment -> [take/slice] -> .cache()/.chunk() -> several downstream shortcuts (take/slice/where/params/none) that
+        share the one Cache object; a history of reads of the branches: complete, abandoned after k items with the generator
+        closed / dropped / kept alive; a final complete read of every branch is appended by evaluate"""
+        n = rng.choice([0, 1, 3, 10, 24, 25, 26, 27, 40, 49, 50, 51, 60, 70]) if not boundary else rng.choice([2, 26, 30, 51, 60])
+        kind = rng.wchoice([(60, "sim"), (30, "log"), (10, "grd")])
+        self._sparse_ids = rng.chance(0.2)
+        self._log_prob = rng.chance(0.6)
+        self._log_acts = True
+        self._extra = rng.chance(0.2)
+        self._bare_keys = []
+        items, _ = self.gen_items(rng, n, kind, rng.choice(["list", "list", "dict", "none"]), "list")
+        pre = None
+        if rng.chance(0.25):
+            pre = rng.choice([{"name": "take", "count": rng.choice([n, max(0, n - 3), 30, 26, 55]), "strict": False},
+                              {"name": "slice", "start": rng.choice([None, 1, 5]), "stop": rng.choice([None, n, 40, 60]), "step": rng.choice([None, 1, 2])}])
+        cop = rng.wchoice([(60, {"name": "cache"}), (25, {"name": "chunk", "default": True}), (15, {"name": "chunk", "cache": True})])
+        nb = rng.choice([1, 1, 2, 2, 3])
+        branches = [self.gen_branch(rng, n, items) for _ in range(nb)]
+        reads = []
+        if rng.chance(0.6):                              # the shape of the round-g change: short closed read, then everything
+            reads.append([rng.below(nb), rng.choice([1, 1, 2, 3, 25, 26]), rng.choice(["close", "close", "del"])])
+        for _ in range(rng.randint(1, 5)):
+            k = None if rng.chance(0.4) else rng.choice([0, 1, 2, 3, 24, 25, 26, 50, 51, rng.randint(0, n + 1)])
+            reads.append([rng.below(nb), k, rng.wchoice([(55, "close"), (20, "del"), (25, "alive")])])
+        return {"kind": kind, "items": items, "op": {"name": "cachepipe", "cache": cop, "pre": pre, "branches": branches}, "reads": reads,
+                "input": rng.choice(["list", "iter", "gen"])}
+
+    def corpus_cachepipe(self, sim, log):
+        cs = []
+        t3, t40 = {"name": "take", "count": 3, "strict": False}, {"name": "take", "count": 40, "strict": True}
+        sl = {"name": "slice", "start": 2, "stop": 55, "step": 3}
+        wh = {"name": "where", "n_interactions": {"min": 30, "max": 60}}
+        whm = {"name": "where", "n_interactions": {"min": None, "max": 70}}
+        par = {"name": "params"}
+        for cop in ({"name": "cache"}, {"name": "chunk", "default": True}):
+            # the demo of the round-g change: take(3) and the whole cached environment share one Cache
+            cs.append({"kind": "sim", "items": sim(60), "op": {"name": "cachepipe", "cache": cop, "pre": None, "branches": [t3, par]}, "reads": [[0, None, "close"], [1, None, "close"], [0, None, "close"]], "input": "gen"})
+            for b in (None, t40, sl, wh, whm):
+                for how in ("close", "del", "alive"):
+                    cs.append({"kind": "sim", "items": sim(60), "op": {"name": "cachepipe", "cache": cop, "pre": None, "branches": [b]}, "reads": [[0, 1, how], [0, None, how]], "input": "gen"})
+            cs.append({"kind": "log", "items": log(52), "op": {"name": "cachepipe", "cache": cop, "pre": {"name": "take", "count": 51, "strict": False}, "branches": [t3, sl, None]},
+                       "reads": [[0, None, "close"], [1, 2, "close"], [2, 26, "del"], [1, None, "close"]], "input": "list"})
+        return cs
+
+    def evaluate_cachepipe(self, case, driver):
+        """(B) every complete read of every branch delivers what the branch's filter promises for the environment's (pre-filtered)
+        interactions, whatever was read, completed or abandoned (closed / dropped / alive) before; abandoned reads are prefixes"""
+        import gc
+        from coba.environments import Environments
+        fails, tags = [], []
+        op = case["op"]
+        mode = case.get("input", "list")
+        items = case["items"]
+        n = len(items)
+        R = Run({"kind": case["kind"], "items": items, "op": {"name": "cache"}, "input": mode})
+        pre, cop, branches = op.get("pre"), op["cache"], op["branches"]
+        ids = [it["id"] for it in items]
+        if pre is None:
+            base_ids = ids
+        elif pre["name"] == "take":
+            base_ids = ids[:pre["count"]]
+        else:
+            base_ids = ids[pre["start"]:pre["stop"]:pre.get("step")]
+        by_id = {it["id"]: it for it in items}
+        base_items = [by_id[i] for i in base_ids]
+        nm = lambda b: "cached" if b is None else b["name"]
+        what = "Environments(env[%d])%s.%s -> branches %s read %s" % (n, "" if pre is None else "." + json.dumps(pre), json.dumps(cop), json.dumps(branches), json.dumps(case["reads"]))
+        tags += ["op:cachepipe", "cachepipe:" + cop["name"], "kind:" + case["kind"], "input:" + mode, "cachepipe:len" + ("<=25" if len(base_ids) <= 25 else ">25"),
+                 "cachepipe:pre=" + ("none" if pre is None else pre["name"])]
+        impl = {"reads": []}
+        try:
+            e0 = Environments(_list_env_class()(R.items, mode, 0))
+            if pre is not None:
+                e0 = apply_method(e0, pre)
+            ec = apply_method(e0, cop)
+            pipes = []
+            for b in branches:
+                eb = ec if b is None else apply_method(ec, b)
+                ps = list(getattr(eb, "_envs"))
+                if len(ps) != 1:
+                    fails.append(F("B", "%s: branch %s has %d pipelines for one environment" % (what, json.dumps(b), len(ps)), "cachepipe-%s-pipeline-count" % nm(b)))
+                    return {"fails": fails, "nontrivial": False, "tags": tags, "impl": impl, "model": None}
+                pipes.append(ps[0])
+        except Exception as e:  # noqa: BLE001
+            fails.append(F("B", "%s raised %s (%s) while building the pipelines" % (what, errname(e), str(e)[:100]), "cachepipe-method-raises-" + errname(e)))
+            return {"fails": fails, "nontrivial": False, "tags": tags, "impl": impl, "model": None}
+        subs = [{"kind": case["kind"], "items": base_items, "op": (b if b is not None else {"name": "cache"}), "input": mode} for b in branches]
+        order = [list(r) for r in case["reads"]] + [[j, None, "close"] for j in range(len(branches))]
+        full, alive, pending = {}, [], []
+        for step, (j, k, how) in enumerate(order):
+            b = branches[j]
+            label = "read #%d of branch %d (%s), %s" % (step, j, nm(b), "complete" if k is None else "abandoned after %d (%s)" % (k, how))
+
+            def bfail(msg, sig, label=label):
+                fails.append(F("B", "%s: %s: %s" % (what, label, msg), "cachepipe-" + sig))
+            try:
+                g = iter(pipes[j].read())
+                if k is None:
+                    o = R.describe(list(g))
+                else:
+                    o = R.describe(list(itertools.islice(g, k)))
+                    if how == "alive":
+                        alive.append(g)
+                    elif how == "close" and hasattr(g, "close"):
+                        g.close()
+                del g
+                if how != "alive":
+                    gc.collect(0)
+            except Exception as e:  # noqa: BLE001
+                o = {"err": errname(e), "msg": str(e)[:120]}
+            impl["reads"].append([j, k, how, o.get("ids", o.get("err"))])
+            tags.append("cachepipe:%s:%s" % (nm(b), "full" if k is None else "partial-" + how))
+            if k is None:
+                self.promise(subs[j], o, bfail, tags if step >= len(case["reads"]) else [])
+                if j not in full:
+                    full[j] = o
+                    for (pj, pk, plabel, po) in [p for p in pending if p[0] == j]:
+                        if "ids" in o and po != o["ids"][:pk]:
+                            fails.append(F("B", "%s: %s delivered %s, the later complete read starts with %s" % (what, plabel, po, o["ids"][:pk]), "cachepipe-%s-partial-read-differs" % nm(b)))
+                elif not same(full[j], o):
+                    bfail("delivered %s, an earlier complete read of the same pipeline %s" % (o.get("ids", o.get("err")), full[j].get("ids", full[j].get("err"))), nm(b) + "-reread-differs")
+            else:
+                if "err" in o:
+                    bfail("raised %s (%s)" % (o["err"], o.get("msg", "")), "%s-raises-%s" % (nm(b), o["err"]))
+                elif o["bad"]:
+                    bfail(o["bad"][0], nm(b) + "-content-altered")
+                elif j in full and "ids" in full[j]:
+                    if o["ids"] != full[j]["ids"][:k]:
+                        bfail("delivered %s, a complete read of the same pipeline starts with %s" % (o["ids"], full[j]["ids"][:k]), nm(b) + "-partial-read-differs")
+                else:
+                    pending.append((j, k, label, o["ids"]))
+        model = None
+        if driver is not None and not fails:
+            def need(b, k):
+                if b is not None and b["name"] == "take" and b.get("strict"):
+                    return b["count"]
+                if k == 0:
+                    return 0
+                if b is None or b["name"] in ("identity", "params", "chunk"):
+                    return k
+                if b["name"] == "take":
+                    vs = [v for v in (b["count"], k) if v is not None]
+                    return min(vs) if vs else None
+                if b["name"] == "slice":
+                    if k is None:
+                        return b["stop"]
+                    nd = (b["start"] or 0) + (k - 1) * (b.get("step") or 1) + 1
+                    return nd if b["stop"] is None else min(nd, b["stop"])
+                return None
+            req = {"op": "cachepipe", "nslice": 25, "items": model_items({"kind": case["kind"], "items": items}),
+                   "pre": None if pre is None else self.inner_req(pre),
+                   "reads": [[None if branches[j] is None else self.inner_req(branches[j]), need(branches[j], k), k] for j, k, how in order]}
+            ans = driver.ask(req)
+            model = ans["reads"]
+            got = [o for j, k, how, o in impl["reads"]]
+            mo = [r.get("out", r.get("err")) for r in model]
+            if ans["base"] != base_ids:
+                fails.append(F("A", "%s: the filter before the cache leaves %s in the model, the harness expects %s" % (what, ans["base"], base_ids), "A:cachepipe-pre"))
+            elif mo != got:
+                i = next(i for i in range(len(got)) if i >= len(mo) or mo[i] != got[i])
+                fails.append(F("A", "%s: read #%d %s delivers %s, the model (cachedRun) %s" % (what, i, order[i], got[i], mo[i] if i < len(mo) else None), "A:cachepipe"))
+        return {"fails": fails, "nontrivial": len(base_ids) >= 2, "tags": tags, "impl": impl, "model": model}
 
     def generate_product(self, rng, tier, boundary=False):
         """2-3 environments x 2-3 filters of one kind through Environments.filter([...]) / shuffle(seeds=[...]) / reservoir(n, seeds=[...])"""
@@ -762,6 +1081,7 @@ class C09(Property):
         elif opn == "cache":
             op["nslice"] = rng.choice([1, 2, 3, 5, 25])
             op["reads"] = [rng.choice([None, None, 0, 1, 2, rng.randint(0, n + 1), n]) for _ in range(rng.randint(1, 5))]
+            op["close"] = [k is not None and rng.chance(0.6) for k in op["reads"]]
         else:
             op["name"] = rng.choice(["identity", "chunk", "params"])
         items, meta = self.gen_items(rng, n, kind, ctx, rew)
@@ -872,6 +1192,10 @@ class C09(Property):
         for k in (None, 0, 1, 2, 5, 6):
             cs.append({"kind": "log", "items": log(5), "op": {"name": "batch", "size": k}, "input": "list"})
         cs.append({"kind": "sim", "items": sim(7), "op": {"name": "cache", "nslice": 2, "reads": [3, 0, None, 2, None]}, "input": "gen"})
+        # round g: an abandoned read whose generator is CLOSED (peek_first / downstream take), then complete reads
+        for ns, n_, reads in ((2, 7, [3, None, None]), (25, 60, [1, None, None]), (3, 10, [1, 4, None]), (1, 5, [2, 0, None]), (5, 12, [5, None])):
+            cs.append({"kind": "sim", "items": sim(n_), "op": {"name": "cache", "nslice": ns, "reads": reads, "close": [k is not None for k in reads]}, "input": "gen"})
+        cs.extend(self.corpus_cachepipe(sim, log))
         # collections of environments behind the Environments shortcut methods, read out of order and repeatedly
         def env(lo, n):
             return [{"id": lo + i, "ctx": {"l": [i % 3, "a"]}, "actions": [1, 2, 3], "rewards": [0, 1, 0]} for i in range(n)]
@@ -937,6 +1261,8 @@ class C09(Property):
             return self.evaluate_product(case, driver)
         if case["op"]["name"] == "unbatchg":
             return self.evaluate_unbatchg(case, driver)
+        if case["op"]["name"] == "cachepipe":
+            return self.evaluate_cachepipe(case, driver)
         fails, tags = [], []
         op = case["op"]
         name = op["name"]
@@ -961,14 +1287,20 @@ class C09(Property):
             from coba.environments import filters as EF
             cache = EF.Cache(op.get("nslice", 25))
             outs, alive = [], []
-            for k in op["reads"]:
+            closes = op.get("close") or []
+            for ri, k in enumerate(op["reads"]):
                 try:
                     g = cache.filter(give(R.items, "gen"))
                     if k is None:
                         o = R.describe(list(g))
                     else:
                         o = R.describe(list(itertools.islice(g, k)))
-                        alive.append(g)
+                        if ri < len(closes) and closes[ri]:
+                            g.close()         # the reader closes / drops the half-read generator (peek_first, a downstream take)
+                            del g
+                            tags.append("cache:closed-partial")
+                        else:
+                            alive.append(g)
                 except Exception as e:  # noqa: BLE001
                     o = {"err": errname(e), "msg": str(e)[:100]}
                 outs.append(o)
@@ -1604,6 +1936,26 @@ class C09(Property):
         if case["op"]["name"] == "multi":
             yield from self.shrink_multi(case)
             return
+        if case["op"]["name"] == "cachepipe":
+            reads, op = case["reads"], case["op"]
+            for i in range(len(reads)):
+                yield dict(case, reads=reads[:i] + reads[i + 1:])
+            if op.get("pre") is not None:
+                yield dict(case, op=dict(op, pre=None))
+            if len(op["branches"]) > 1:
+                for j in range(len(op["branches"])):
+                    yield dict(case, op=dict(op, branches=op["branches"][:j] + op["branches"][j + 1:]),
+                               reads=[[b - (b > j), k, h] for b, k, h in reads if b != j])
+            for j, b in enumerate(op["branches"]):
+                if b is not None:
+                    yield dict(case, op=dict(op, branches=op["branches"][:j] + [None] + op["branches"][j + 1:]))
+            its = case["items"]
+            for m in (len(its) // 2, len(its) - 5, len(its) - 1):
+                if 0 < m < len(its):
+                    yield dict(case, items=its[:m])
+            if case.get("input", "list") != "list":
+                yield dict(case, input="list")
+            return
         items = case["items"]
         n = len(items)
         if n > 1:
@@ -1644,7 +1996,7 @@ class C09(Property):
                 break
 
     def snippet(self, case):
-        if case["op"]["name"] in ("product", "unbatchg"):
+        if case["op"]["name"] in ("product", "unbatchg", "cachepipe"):
             return ("# plain reproduction against the coba checkout (no Lean): evaluates the case with the harness monitor only\n"
                     "import sys, json; sys.path[:0] = [%r, %r]\n"
                     "from props.c09 import PROPERTY\n"
@@ -1673,9 +2025,12 @@ class C09(Property):
         if case["op"]["name"] == "cache":
             return head + ("from coba.environments.filters import Cache\n"
                            "c = Cache(case['op'].get('nslice', 25)); alive = []\n"
-                           "for k in case['op']['reads']:\n"
-                           "    g = c.filter(give(r.items, 'gen')); alive.append(g)\n"
-                           "    print('read consuming', k, '->', r.describe(list(g if k is None else itertools.islice(g, k))))\n")
+                           "closes = case['op'].get('close') or []\n"
+                           "for i, k in enumerate(case['op']['reads']):\n"
+                           "    g = c.filter(give(r.items, 'gen'))\n"
+                           "    print('read consuming', k, '->', r.describe(list(g if k is None else itertools.islice(g, k))))\n"
+                           "    if i < len(closes) and closes[i]: g.close()     # the reader closes its half-read generator\n"
+                           "    else: alive.append(g)\n")
         return head + ("reader = r.new_reader()\n"
                        "print('first read ', r.read_once(reader))\n"
                        "print('second read', r.read_once(reader))\n"
